@@ -16,7 +16,7 @@
 import RotoV.Lemmas.Glue
 
 namespace RotoV.C03
-open RotoV.Glue RotoV.Gen.GlueLoops
+open RotoV.Glue RotoV.Glue.Ex RotoV.Gen.GlueLoops
 
 /-- T2a. The drop function of `ty`, run on a value at `a`, calls exactly the drop
     functions of the value's droppable leaves, each once, at the address the
@@ -58,19 +58,9 @@ theorem no_drop_needed_releases_nothing (ρ : Nat → Nat) (ty : GTy) (a s d : N
 
 /-! ## Non-vacuity and a concrete reading
 
-`enum F { P(u64, Tk), S(u8, String, u64, Tk), T(Tk, u64), Z }` with `Tk` and
-`String` 16 bytes / align 8 (leaf ids 1 and 2). -/
+`Ex.exF` is `enum F { P(u64, Tk), S(u8, String, u64, Tk), T(Tk, u64), Z }` with `Tk` and
+`String` 16 bytes / align 8 (leaf ids 1 and 2); defined in `Lemmas/Glue.lean`. -/
 
-def tk : GTy := .leaf 1 16 8 true
-def str : GTy := .leaf 2 16 8 true
-def u64 : GTy := .leaf 0 8 8 false
-def u8 : GTy := .leaf 0 1 1 false
-
-def exF : GTy := .enum
-  (.cons (.cons u64 (.cons tk .nil))
-  (.cons (.cons u8 (.cons str (.cons u64 (.cons tk .nil))))
-  (.cons (.cons tk (.cons u64 .nil))
-  (.cons .nil .nil))))
 
 /-- variant `P(u64, Tk)` at address 1000: the token sits at 1016 (after the tag
     and the `u64` at 1008), and that is the one address the drop function touches -/
